@@ -170,11 +170,13 @@ def zero_width_wiring(ctx, prog, rule):
     ctx.fn_seen(f)
     R = Resolver(f)
     seen = {}
-    for bi, t in f.calls(lambda c, t: c.endswith("push_back")):
-        v = strip(R.operand(t["args"][1]))
-        if v[0] == "agg" and v[1][0] == "adt" and v[1][1] == "record::RecordValue":
-            x = strip(v[2][0])
-            seen[v[1][2]] = tree_str(x)
+    # every RecordValue that parse_byte_streams builds itself (pushed one by one or via extend(repeat(v).take(n)))
+    for bi in f.cfg():
+        for st in f.blocks[bi]["stmts"]:
+            rv = st["rv"]
+            if rv["k"] == "aggregate" and rv["kind"].get("agg") == "adt" and rv["kind"]["adt"] == "record::RecordValue" and rv["ops"]:
+                x = strip(R.operand(rv["ops"][0]))
+                seen[rv["kind"]["variant"]] = tree_str(x)
     ok = set(seen) == {"ScaledInteger", "Integer"} and all(".min" in s for s in seen.values()) and "ScaledInteger.min" in seen.get("ScaledInteger", "") and "Integer.min" in seen.get("Integer", "")
     ctx.ob(rule, "zero-width/synthesised-value", ok, "zero-width records are filled with %s (must be the record's own minimum, per integer kind)" % seen)
     # guarded by bit_size() == 0, else the unpack function of the same kind
